@@ -1619,7 +1619,11 @@ class Stage:
             raise Exception(msg)
         N, M = stage._method.N, stage._method.M
 
-        expr_f = Function('expr', [stage.t, stage.x, stage.xq, stage.z, stage.u, vertcat(stage.p, stage.v), stage.t0, stage.T], [expr])
+        # Signals that are not parameters/variables themselves (derivatives of B-spline signals)
+        primary = set(hash(e) for e in stage.parameters['bspline']+stage.variables['bspline'])
+        derived = [i for i,s in enumerate(stage._method.signals.keys()) if hash(s) not in primary]
+        derived_symbols = [s for s in stage._method.signals.keys() if hash(s) not in primary]
+        expr_f = Function('expr', [stage.t, stage.x, stage.xq, stage.z, stage.u, vertcat(stage.p, stage.v), stage.t0, stage.T, vvcat(derived_symbols)], [expr])
         assert not expr_f.has_free(), str(expr_f.free_mx())
 
 
@@ -1667,7 +1671,8 @@ class Stage:
                     pv = stage._method.get_p_sys(stage,k,signals_sampled=[e[count_blocks] for e in v_sampled_store])
                 else:
                     pv = stage._method.get_p_sys(stage,k,include_signals=False)
-                sub_expr.append(stage._method.eval_at_integrator(stage, expr_f(local_t.T, nan if coeff is None else mtimes(coeff,tpower), nan if coeff_q is None else mtimes(coeff_q,tpower), z, stage._method.U[k], pv, stage._method.t0, stage._method.T), k, l))
+                sd = ca.vertcat(*[v_sampled_store[i][count_blocks] for i in derived]) if derived else ca.DM(0,refine)
+                sub_expr.append(stage._method.eval_at_integrator(stage, expr_f(local_t.T, nan if coeff is None else mtimes(coeff,tpower), nan if coeff_q is None else mtimes(coeff_q,tpower), z, stage._method.U[k], pv, stage._method.t0, stage._method.T, sd), k, l))
                 t0+=dt
                 count_blocks+=1
             q_start += stage._method.xqk[k]
@@ -1683,7 +1688,9 @@ class Stage:
             z = nan
 
         pv = stage._method.get_p_sys(stage,-1)
-        sub_expr.append(stage._method.eval_at_integrator(stage, expr_f(time[k+1], nan if coeff is None else mtimes(stage._method.poly_coeff[-1],tpower), nan if coeff_q is None else mtimes(horzcat(stage._method.xqk[-2],stage._method.poly_coeff_q[-1]),tpower), z, stage._method.U[-1], pv, stage._method.t0, stage._method.T), k, l))
+        signals_list = list(stage._method.signals.values())
+        sd = ca.vertcat(*[signals_list[i].sampled[-1] for i in derived]) if derived else ca.DM(0,1)
+        sub_expr.append(stage._method.eval_at_integrator(stage, expr_f(time[k+1], nan if coeff is None else mtimes(stage._method.poly_coeff[-1],tpower), nan if coeff_q is None else mtimes(horzcat(stage._method.xqk[-2],stage._method.poly_coeff_q[-1]),tpower), z, stage._method.U[-1], pv, stage._method.t0, stage._method.T, sd), k, l))
 
         return vcat(total_time), hcat(sub_expr)
 
